@@ -1,6 +1,6 @@
 """
 Regenerate lean/XdslModel/Generated/*.lean from the current /repo sources.
-Run on every C14/C15 check (and by setup).  Files are rewritten only when their content changes so
+Run on every C14/C15/C22 check (and by setup).  Files are rewritten only when their content changes so
 that lake stays incremental.  A function the translator refuses is left out and reported.
 """
 from __future__ import annotations
@@ -41,6 +41,68 @@ def comparisons_specs() -> list[FnSpec]:
         FnSpec("to_unsigned", "to_unsigned", two),
         FnSpec("to_signed", "to_signed", two),
     ]
+
+
+NV_SIGNLESS = "Xdsl.Generated.BuiltinInt.normalized_value_signless"
+
+
+def riscv_kernels(repo: Path, known: dict, dispatch: list, report: dict) -> list[str]:
+    """lean/XdslModel/Generated/RiscvPyOps.lean.  `IntegerAttr(e, i32|i64[, truncate_bits=b])` in return
+    position is the payload `IntegerType.normalized_value` (as translated in BuiltinInt.lean) gives `e`;
+    `none` = the constructor raises (VerifyException: out of range)."""
+    ns = "Xdsl.Generated.RiscvPyOps"
+    ctor = {"IntegerAttr": (NV_SIGNLESS, {"i32": 32, "i64": 64})}
+    defs: list[str] = []
+    srcs: list[str] = []
+
+    def add(tree: ast.Module, sp: FnSpec) -> None:
+        try:
+            code, tag = translate_function(tree, sp, known)
+        except TranslationError as e:
+            report["refused"][f"{ns}.{sp.lean_name}"] = str(e)
+            return
+        defs.append(code)
+        dispatch.append((f"{ns}.{sp.lean_name}", sp.params, tag, f"def {sp.lean_name}_pre " in code))
+        report["translated"].append(f"{ns}.{sp.lean_name}")
+
+    def abstract(m: ast.FunctionDef) -> bool:
+        return any("abstractmethod" in ast.unparse(d) for d in m.decorator_list)
+
+    for mod in ("rv32", "rv64"):
+        f = repo / f"xdsl/dialects/{mod}.py"
+        srcs.append(str(f))
+        t = ast.parse(f.read_text())
+        for c in t.body:
+            if not isinstance(c, ast.ClassDef):
+                continue
+            for m in c.body:
+                if isinstance(m, ast.FunctionDef) and m.name == "py_operation" and not abstract(m):
+                    add(t, FnSpec(f"{c.name}.py_operation", f"{mod}_{c.name}_py_operation", [("rs1", "Int"), ("imm", "Int")],
+                                  subst={"rs1.value.data": ("rs1", "int"), "self.immediate.value.data": ("imm", "int")},
+                                  ret_ctor=ctor))
+    f = repo / "xdsl/dialects/riscv_cf.py"
+    srcs.append(str(f))
+    t = ast.parse(f.read_text())
+    for c in t.body:
+        if not isinstance(c, ast.ClassDef):
+            continue
+        for m in c.body:
+            if isinstance(m, ast.FunctionDef) and m.name == "const_evaluate" and not abstract(m):
+                add(t, FnSpec(f"{c.name}.const_evaluate", f"cf_{c.name}_const_evaluate",
+                              [("rs1", "Int"), ("rs2", "Int"), ("bitwidth", "Int")]))
+    f = repo / "xdsl/transforms/canonicalization_patterns/riscv.py"
+    srcs.append(str(f))
+    t = ast.parse(f.read_text())
+    add(t, FnSpec("_fits_si12", "fits_si12", [("value", "Int")]))
+    all32 = ast.unparse(ast.parse("all(source.type == i32 for source in sources)", mode="eval").body)
+    add(t, FnSpec("_folded_li_immediate", "folded_li_immediate", [("value", "Int"), ("all32", "Bool")],
+                  subst={all32: ("all32", "bool")}, ret_ctor=ctor))
+    text = lean_module(ns, ["XdslModel.PyInt", "XdslModel.Generated.Comparisons", "XdslModel.Generated.BuiltinInt"], defs, srcs)
+    p = GEN / "RiscvPyOps.lean"
+    if not p.exists() or p.read_text() != text:
+        p.write_text(text)
+        return ["RiscvPyOps.lean"]
+    return []
 
 
 def generate(repo: Path) -> dict:
@@ -145,6 +207,9 @@ def generate(repo: Path) -> dict:
     if not p.exists() or p.read_text() != text:
         p.write_text(text)
         report["changed_files"].append("ArithPyOps.lean")
+    # 4. RISC-V dialect kernels (C22): py_operation of the rv32/rv64 immediate shifts and single-bit ops,
+    #    const_evaluate of the riscv_cf branches, and the two integer helpers of the canonicalization patterns
+    report["changed_files"] += riscv_kernels(repo, known, dispatch, report)
     # dispatch table for the driver: one arm per translated function
     arms = []
     def show(tag: str, call: str) -> str:
@@ -159,7 +224,7 @@ def generate(repo: Path) -> dict:
         arms.append(f'  | "{short}", [{", ".join(names)}] => some {show(tag, f"{q} {actual}")}')
         if has_pre:
             arms.append(f'  | "{short}_pre", [{", ".join(names)}] => some {show("bool", f"{q}_pre {actual}")}')
-    dtext = ("import XdslModel.Generated.Comparisons\nimport XdslModel.Generated.ArithInterp\nimport XdslModel.Generated.BuiltinInt\nimport XdslModel.Generated.ArithPyOps\n"
+    dtext = ("import XdslModel.Generated.Comparisons\nimport XdslModel.Generated.ArithInterp\nimport XdslModel.Generated.BuiltinInt\nimport XdslModel.Generated.ArithPyOps\nimport XdslModel.Generated.RiscvPyOps\n"
              "/-! GENERATED dispatch table (harness/translate/generate.py). -/\nnamespace Xdsl.Generated\n\n"
              "def call (name : String) (args : List Int) : Option String :=\n  match name, args with\n" + "\n".join(arms) + "\n  | _, _ => none\n\nend Xdsl.Generated\n")
     p = GEN / "Dispatch.lean"
